@@ -6,13 +6,17 @@ set -u
 P=$1; WT=$2; shift 2; CHECKS=${@:-$P}
 export CARGO_NET_OFFLINE=true
 cd $WT || exit 2
+# the worktree's own state is not trusted (agents share the repository's stash): rebuild it from the deliverables
+git checkout -q -- src 2>/dev/null
+git apply SEEDED/patch.diff || { echo "SEEDED/patch.diff does not apply to a clean worktree"; exit 3; }
+cp SEEDED/seeded_demo.rs tests/seeded_demo.rs 2>/dev/null
 echo "== confirm in $WT"
 git diff --stat -- src | tail -1
 T1=$(cargo test --offline --lib 2>&1 | grep -E "^test result" | head -1); echo "lib tests with change: $T1"
 D1=$(cargo test --offline --test seeded_demo 2>&1 | grep -E "^test result" | head -1); echo "demo with change: $D1"
-git stash push -q -- src
+git apply -R SEEDED/patch.diff
 D2=$(cargo test --offline --test seeded_demo 2>&1 | grep -E "^test result" | head -1); echo "demo without change: $D2"
-git stash pop -q
+git apply SEEDED/patch.diff
 echo "== apply to /repo and run checks"
 cd /repo && git apply $WT/SEEDED/patch.diff || { echo "patch does not apply"; exit 3; }
 for c in $CHECKS; do
